@@ -504,7 +504,7 @@ class Interp:
                 if to in ("f64", "f32"):
                     return v
                 return Opaque("float-to-int", to)
-            if rv["cast"].startswith(("Transmute", "PtrToPtr")) and isinstance(v, (Variant, Tup)):
+            if rv["cast"].startswith(("Transmute", "PtrToPtr", "PointerCoercion")):
                 return v
             return v if isinstance(v, (Ptr, Closure, FnItem, Str)) else Opaque("cast(%s)" % getattr(v, "tag", "?"), rv["to"])
         if "bin" in rv:
@@ -623,6 +623,10 @@ class Interp:
                 if "d" in s:
                     val = self.rvalue(p, fid, fn, s["rv"])
                     self.write_place(p, fid, s["d"], val)
+                    if "agg" in s["rv"] and s["rv"]["agg"]["k"] == "array" and "vec" in (s.get("mc") or []):
+                        # vec![a, b] writes the array through a freshly allocated box, then calls
+                        # box_assume_init_into_vec_unsafe(box): remember the array for that call
+                        p.frames.setdefault(-1, {})["vec_array"] = val
                 elif "setdiscr" in s:
                     pass
             t = blk["t"]
@@ -942,7 +946,15 @@ def _ident(it, p, fid, fn, t, args):
 
 def _deref_model(it, p, fid, fn, t, args):
     a = args[0]
-    # Deref::deref(&x) -> &*x ; with value semantics for smart pointers: return the same pointer
+    # Deref::deref(&x) -> &*x ; with value semantics for smart pointers: return the same pointer.
+    # Cow<T> derefs to its payload.
+    v = a
+    n = 0
+    while isinstance(v, Ptr) and n < 6:
+        v = it.deref(p, v)
+        n += 1
+    if isinstance(v, Variant) and v.adt == "alloc::borrow::Cow" and v.fields:
+        return v.fields[0]
     return a
 
 
@@ -1115,7 +1127,26 @@ def _opt_unwrap(it, p, fid, fn, t, args):
     return NotImplemented
 
 
+def _vec_from_box(it, p, fid, fn, t, args):
+    st = p.frames.get(-1, {})
+    if "vec_array" in st:
+        v = st["vec_array"]
+        st = dict(st)
+        del st["vec_array"]
+        p.frames[-1] = st
+        return v
+    return NotImplemented
+
+
+def _empty_vec(it, p, fid, fn, t, args):
+    return Tup(())
+
+
 DEFAULT_MODELS = {
+    "alloc::boxed::box_assume_init_into_vec_unsafe": _vec_from_box,
+    "alloc::vec::Vec::new": _empty_vec,
+    "core::cell::RefCell::new": _box_new,
+    "core::cell::Cell::new": _box_new,
     "anyhow::Context::context": _anyhow_context,
     "anyhow::Context::with_context": _anyhow_context,
     "core::option::Option::unwrap": _opt_unwrap,
